@@ -18,7 +18,7 @@ from common import *
 
 def gen_job(ctx, j, num, seed, nframes):
     cfg = ctx.path(f"gen{j}.cfg")
-    open(cfg, "w").write(f"CONSTANTS MaxRows = 6 NFrames = {nframes}\nSPECIFICATION Spec\nINVARIANTS Emit FrameSanity\n")
+    open(cfg, "w").write(f"CONSTANTS MaxRows = 7 NFrames = {nframes} NVariants = 4\nSPECIFICATION Spec\nINVARIANTS Emit FrameSanity\n")
     r = tlc(ctx, "ops2/WindowGen", cfg=cfg, workers=1, deadlock=False, tag=f"gen{j}", xmx="2g",
             mode_args=["-simulate", f"num={num}", "-depth", "10", "-seed", str(seed)], timeout=2400,
             env={"JAVA_TOOL_OPTIONS": "-XX:ParallelGCThreads=2"})
@@ -59,7 +59,7 @@ def run(ctx):
                                             "rule": "replay of one table through seeded window queries", "samples": [rep["case"]["tbl"]]})
         return
     njobs = 4 if ctx.quick else 8
-    num = 12 if ctx.quick else 40
+    num = 10 if ctx.quick else 30
     with cf.ThreadPoolExecutor(max_workers=4 if ctx.quick else 6) as ex:
         res = list(ex.map(lambda j: gen_job(ctx, j, num, ctx.seed * 1000 + j, 5 if ctx.quick else 8), range(njobs)))
     cases = [c for cs, _ in res for c in cs]
@@ -73,7 +73,7 @@ def run(ctx):
     if len(cases) < 40:
         raise ToolError(f"only {len(cases)} cases generated")
     write_ndjson(ctx.path("cases.ndjson"), cases)
-    run_harness(ctx, "vops2", ["c09", "--in", ctx.path("cases.ndjson"), "--out", ctx.path("res.json"), "--per-case", 14 if ctx.quick else 25],
+    run_harness(ctx, "vops2", ["c09", "--in", ctx.path("cases.ndjson"), "--out", ctx.path("res.json"), "--per-case", 20 if ctx.quick else 30],
                 timeout=5000)
     res = json.load(open(ctx.path("res.json")))
     if res["tool_errors"]:
@@ -83,6 +83,18 @@ def run(ctx):
                  "pos bounded", "pos whole-partition", "topn", "limit"]:
         if not any(k.startswith(need) and n > 0 for k, n in pu.items()):
             raise ToolError(f"vacuity: no execution of '{need}' ({pu})")
+    pm = res["bounded_executor_runs_per_input_order_mode"]
+    for need in ["Sorted (planned)", "Sorted (direct)", "PartiallySorted (direct)", "Linear (direct)", "WindowAggExec (direct)"]:
+        if pm.get(need, 0) < 20:
+            raise ToolError(f"vacuity: BoundedWindowAggExec input order mode '{need}' (almost) never ran ({pm})")
+    md = res["bounded_executor_runs_per_mode_units_direction"]
+    for m in ("Sorted", "PartiallySorted", "Linear"):
+        for u in ("ROWS", "RANGE", "GROUPS"):
+            for d in ("ASC NULLS FIRST", "ASC NULLS LAST", "DESC NULLS FIRST", "DESC NULLS LAST"):
+                if md.get(f"{m} {u} {d}", 0) == 0:
+                    raise ToolError(f"vacuity: no BoundedWindowAggExec run for mode {m}, {u} frame, ORDER BY {d}")
+    if res["plans_with_PartitionedTopKExec"] == 0:
+        raise ToolError("vacuity: the WindowTopN rewrite (PartitionedTopKExec) never ran")
     if res["plans_with_BoundedWindowAggExec"] == 0 or res["plans_with_WindowAggExec"] == 0 or res["sorted_source_plans_without_SortExec"] == 0:
         raise ToolError("vacuity: one of the two window executors (or the sorted-source path) never ran")
     seen = set()
@@ -114,13 +126,24 @@ def run(ctx):
         "plans_with_BoundedWindowAggExec": res["plans_with_BoundedWindowAggExec"],
         "plans_with_WindowAggExec": res["plans_with_WindowAggExec"],
         "sorted_source_plans_without_SortExec": res["sorted_source_plans_without_SortExec"],
+        "bounded_executor_runs_per_input_order_mode": pm,
+        "bounded_executor_runs_per_mode_units_direction": md,
+        "direct_combinations_not_accepted_by_engine": res["direct_combinations_not_accepted_by_engine"],
+        "direct_skip_reasons": res["direct_skip_reasons"],
+        "topn_plans_rewritten_to_PartitionedTopKExec": res["plans_with_PartitionedTopKExec"],
+        "limit_shape_plans_with_a_limit_or_fetch": res["limit_shape_plans_with_a_limit_or_fetch"],
         "executions_per_shape": res["per_shape"],
         "executions_per_frame_units_and_executor": pu,
         "frame_kinds_generated(units start..end)": frames_used,
         "rejected_at_planning": res["engine_rejected_at_planning"],
         "rejected_at_planning_samples": res["engine_rejected_samples"],
     }, assumptions=[
-        "tables <= 6 rows; p over {NULL,0,1}, o over {NULL,0,1,2}, x over {NULL,-1,0,1,2} as Int64 or Float64",
+        "tables <= 7 rows; p over {NULL,0,1,2} (also rendered as the pair a = p div 2, b = p mod 2), o over {NULL,0,1,2}, x over {NULL,-1,0,1,2} as Int64 or Float64; "
+        "frame offsets k in {0,1,2,5} (5 exceeds the data span); ORDER BY ASC|DESC x NULLS FIRST|LAST",
+        "direct runs: the window expressions are those the planner builds for the SQL text; the operator (BoundedWindowAggExec in the input order mode "
+        "get_window_mode reports for the arrangement, or WindowAggExec) is constructed by the driver over a single-partition source declared sorted for "
+        "Sorted / PartiallySorted (PARTITION BY a, b sorted on a) / Linear (sorted on the order key only, partitions interleaved), cut into batches of "
+        "1, 2, 3 rows or seeded irregular cuts so that ties straddle batch boundaries",
         "under ORDER BY o (ties) only peer-closed frames (RANGE, GROUPS) and order-insensitive functions are compared; ROWS frames, "
         "row_number, ntile, lag/lead, first/last/nth_value are compared under the total order ORDER BY o, id",
         "frames whose start bound lies after the end bound (and 0 FOLLOWING..CURRENT ROW style pairs) are not generated",
